@@ -10,6 +10,7 @@ import (
 	"runtime"
 	"strconv"
 	"sync"
+	"sync/atomic"
 	"time"
 )
 
@@ -57,7 +58,7 @@ func verifPoint(pos string) {
 	start := time.Now()
 	for {
 		c.mu.Lock()
-		if !c.active || c.cur >= len(c.entries) || c.remain[pos] == 0 {
+		if !c.active || c.cur >= len(c.entries) || c.remain[pos] == 0 || atomic.LoadInt32(&verifAtomicDepth) > 0 {
 			c.mu.Unlock()
 			return
 		}
@@ -109,11 +110,13 @@ func verifLoad() {
 		}
 		b, err := os.ReadFile(p)
 		if err != nil {
-			panic(err)
+			fmt.Println("VERIF-RT-ERROR cannot read replay file:", err)
+			os.Exit(3)
 		}
 		var f verifReplayFile
 		if err := json.Unmarshal(b, &f); err != nil {
-			panic(err)
+			fmt.Println("VERIF-RT-ERROR cannot parse replay file:", err)
+			os.Exit(3)
 		}
 		for k, v := range f.Nondets {
 			verifRT.vals[k] = v
@@ -175,7 +178,17 @@ func verifGuards(on bool)        {}
 func verifStep() int             { return 0 }
 func verifYield()                { runtime.Gosched() }
 func verifAwaitAfterFunc(id int) {}
-func verifAtomic(f func())      { f() }
+
+var verifAtomicDepth int32
+
+// verifAtomic: the engine executes f as one transition; natively the schedule controller lets every point
+// pass while an atomic block runs.
+func verifAtomic(f func()) {
+	atomic.AddInt32(&verifAtomicDepth, 1)
+	defer atomic.AddInt32(&verifAtomicDepth, -1)
+	f()
+}
+
 func verifLastRandN() int           { return 0 }
 func verifLastRand() int            { return 0 }
 func verifBoundSelectDefaults(n int) {}
